@@ -22,7 +22,7 @@ def parseKind : String → Option Kind
 def showEv : Ev → String
   | .rx n i f t => s!"rx:{n}:{i}:{f}:{t}"
   | .hop n f t => s!"hop:{n}:{f}:{t}"
-  | .sw n f => s!"sw:{n}:{f}"
+  | .sw n f _ _ => s!"sw:{n}:{f}"
   | .raised n => s!"raised:{n}"
 
 /-- events of the last operation, oldest first; then clear the log and the out-of-fuel flag. -/
